@@ -120,6 +120,37 @@ def mux_split(kind, serial, per_page=2, every=5, fserial=7777, **over):
     return path, m
 
 
+def big_comment(kind, serial, size, pages='3', **over):
+    """Encoder-made link whose comment header is replaced by one carrying a `size`-byte entry (embedded cover art): the comment + setup headers
+    then span several maximal pages.  Audio pages are kept (renumbered)."""
+    import vspec
+    p, m = link(kind, serial, pages, **over)
+    pg = parse_pages(open(p, 'rb').read())
+    pk = packets_of(pg, m['serial'])
+    hdr, aud = pk[:3], pk[3:]
+    # (the vendor string is kept: the chain harness compares it with the link decoded on its own)
+    vlen = int.from_bytes(hdr[1][0][7:11], 'little')
+    com = vspec.pack_comment(hdr[1][0][11:11 + vlen], [b'TITLE=' + (m.get('tag') or 'x').encode(), b'COVERART=' + bytes((i * 7 + 1) % 251 + 1 for i in range(size))])[0]
+    out = [pg[0]]
+    out += pages_spanning([com, hdr[2][0]], m['serial'], [0, 0], 255, seq0=1)
+    out[-1].flags &= ~4                      # pages_spanning marks its last page EOS
+    first_audio = aud[0][3]
+    seq = out[-1].seq + 1
+    for x in pg[first_audio:]:
+        if x.serial != m['serial']:
+            continue
+        y = x.copy()
+        y.seq = seq
+        seq += 1
+        out.append(y)
+    blob = b''.join(x.encode() for x in out)
+    name = f'BC_{kind}_{serial}_{size}_{pages}_' + '_'.join(f'{k}{v}' for k, v in sorted(over.items()))
+    path = write_file(name + '.ogg', blob)
+    m = dict(m)
+    m.update({'file': path, 'bytes': len(blob), 'pages': len(out), 'comment_bytes': len(com), 'tag': '%s+%d' % (m.get('tag') or 'x', size)})
+    return path, m
+
+
 def make_chain(name, kinds, pages='natural', serial0=100):
     links = [link(k, serial0 + i, pages if not isinstance(pages, (list, tuple)) else pages[i]) for i, k in enumerate(kinds)]
     return chain(name, links)
